@@ -675,3 +675,91 @@ def param_by_annotation(func: FuncInfo, *fragments: str, exact: bool = False) ->
         if (exact and text == fragments[0]) or (not exact and all(fragment in text for fragment in fragments)):
             return argument.arg
     return None
+
+
+def decision_chain_problems(func: FuncInfo, classify: Callable[[ast.AST], Optional[str]], layers: List[str],
+                            result_of: Optional[Callable[[ast.stmt], Optional[ast.AST]]] = None) -> Tuple[List[str], int]:
+    """A value is chosen from ``layers`` in order: layer i is used only when every earlier layer gave None, and
+    (unless it is the last) only when it gave a value itself.  Checked on every path through ``func`` whatever
+    its shape (re-assigned variable, early returns, conditional expression).  ``classify`` says which layer an
+    expression reads; ``result_of`` picks the chosen value out of a statement (default: the returned value).
+    Returns (problems, number of deciding paths)."""
+    cfg = CFG(func.node, raising=lambda n: False)
+    pick = result_of or (lambda stmt: stmt.value if isinstance(stmt, ast.Return) else None)
+
+    def narrow(test: ast.AST, outcome: bool, env: Dict[str, str], known: Dict[str, str]) -> bool:
+        """record what the branch establishes; False when it contradicts what the path already knows (infeasible)"""
+        name, is_none = None, None
+        if isinstance(test, ast.Compare) and len(test.ops) == 1 and isinstance(test.left, ast.Name) and isinstance(test.comparators[0], ast.Constant) and test.comparators[0].value is None:
+            name = test.left.id
+            is_none = outcome if isinstance(test.ops[0], ast.Is) else (not outcome) if isinstance(test.ops[0], ast.IsNot) else None
+        elif isinstance(test, ast.Name) and outcome:
+            name, is_none = test.id, False
+        if name is not None and is_none is not None and name in env:
+            verdict = "none" if is_none else "value"
+            if known.get(env[name], verdict) != verdict:
+                return False
+            known[env[name]] = verdict
+        return True
+
+    problems: List[str] = []
+    deciding = 0
+    for path in enumerate_paths(cfg, loop_bound=1):
+        if path[-1][0] != cfg.exit:
+            continue
+        env: Dict[str, str] = {}
+        known: Dict[str, str] = {}
+        chosen: Optional[ast.AST] = None
+        feasible = True
+        for nid, label in path:
+            node = cfg.nodes[nid]
+            stmt = node.ast_node
+            if stmt is None:
+                continue
+            if node.kind == "cond":
+                if not narrow(stmt, label == "true", env, known):
+                    feasible = False
+                    break
+            elif isinstance(stmt, (ast.Assign, ast.AnnAssign)) and getattr(stmt, "value", None) is not None:
+                picked = pick(stmt)
+                if picked is not None:
+                    chosen = picked
+                    continue
+                layer = classify(stmt.value)
+                targets = stmt.targets if isinstance(stmt, ast.Assign) else [stmt.target]
+                for target in targets:
+                    if isinstance(target, ast.Name):
+                        if layer:
+                            env[target.id] = layer
+                            if layer != layers[-1]:
+                                known.pop(layer, None)
+                        elif isinstance(stmt.value, ast.Name) and stmt.value.id in env:
+                            env[target.id] = env[stmt.value.id]
+                        else:
+                            env.pop(target.id, None)
+            elif isinstance(stmt, ast.stmt):
+                picked = pick(stmt)
+                if picked is not None:
+                    chosen = picked
+        if chosen is None or not feasible:
+            continue
+        deciding += 1
+        cases: List[Tuple[ast.AST, Dict[str, str]]] = [(chosen, dict(known))]
+        if isinstance(chosen, ast.IfExp):
+            cases = []
+            for outcome, branch in ((True, chosen.body), (False, chosen.orelse)):
+                branch_known = dict(known)
+                if narrow(chosen.test, outcome, env, branch_known):
+                    cases.append((branch, branch_known))
+        for value, facts in cases:
+            layer = classify(value) or (env.get(value.id) if isinstance(value, ast.Name) else None)
+            if layer is None or layer not in layers:
+                problems.append(f"a path chooses '{norm(value)[:50]}', which is none of {layers}")
+                continue
+            index = layers.index(layer)
+            if index < len(layers) - 1 and facts.get(layer) != "value":
+                problems.append(f"a path chooses the {layer} value without having established that it is not None: the next layer never gets its turn")
+            for earlier in layers[:index]:
+                if facts.get(earlier) != "none":
+                    problems.append(f"a path chooses the {layer} value although the {earlier} layer may have decided: it is outranked")
+    return sorted(set(problems)), deciding
